@@ -444,7 +444,10 @@ func checkConv(p *Prog, r *Report, pkg, prop string) {
 // ---- C18 ----
 
 func checkC18(p *Prog, r *Report) {
-	ruleRegexpConsts(p, r, "R-RX", "C18", 3)
+	rulePairsBeforeCreation(p, r, "R18.9")
+	ruleExitsAudited(p, r, "R-X", "C18", map[string]bool{"cisco": true, "panos": true, "nsx": true, "linux": true}, 16)
+	ruleMemo(p, r, "R-MEMO", "C18", map[string]bool{"cisco": true, "panos": true, "nsx": true, "linux": true}, 7)
+	ruleRegexpConsts(p, r, "R-RX", "C18", 1)
 	ruleMergeCompleteness(p, r, "R18.1", map[string]bool{"panos": true, "nsx": true, "linux": true})
 	r.rule("R18.2", "Error discipline (E6) in the merge code (*/config.go of cisco, linux, nsx, panos and device/main.go's load functions): no error result is dropped; in particular a raw part that cannot be merged produces an error or abort instead of being skipped.")
 	ruleErrorDiscipline(p, r, "R18.2", map[string]bool{"cisco": true, "linux": true, "nsx": true, "panos": true}, "config.go")
